@@ -508,7 +508,7 @@ class ADWIN(BaseWindow):
 
         bucket.remove()
         self.num_buckets -= 1
-        if bucket.idx == 0:
+        while len(self.buckets) > 1 and self.buckets[-1].idx == 0:
             self.buckets.pop()
 
         return bucket_size
